@@ -145,17 +145,20 @@ func closedFieldWriters(c *core.Ctx, key string, f *types.Var, allowed ...string
 	}
 	ws := fieldWritersAll(c, f)
 	seen := map[string]bool{}
+	okBy := map[string]bool{}
 	var names []string
 	for _, w := range ws {
 		n := core.FuncName(w.Fn)
 		if !seen[n] {
 			seen[n] = true
 			names = append(names, n)
+			// a private helper reached only from permitted writers writes on their behalf (extract-function does not widen the set)
+			okBy[n] = allow[n] || ownedBy(c, w.Fn, allow, 0)
 		}
 	}
 	sort.Strings(names)
 	for _, n := range names {
-		c.Check(key+"@"+n, "who-may-write", allow[n], token.NoPos, "%s assigns field %s but is not in the frozen set of its writers", n, f.Name())
+		c.Check(key+"@"+n, "who-may-write", okBy[n], token.NoPos, "%s assigns field %s but is not in the frozen set of its writers (nor a private helper reached only from them)", n, f.Name())
 	}
 	return ws
 }
